@@ -29,27 +29,14 @@ def registry_modes(ctx):
     m = ctx.repo.mod(NK)
     fn = m.fn("select_numba_kernels")
     r = ctx.rule("REG-MODES", "select_numba_kernels: modes 'regular' and 'potential' take the Green's function from the same registry; each mode pairs its own assembly registry", 4)
-    want = {
-        "regular": ("assembly_functions_regular", "kernel_functions_regular"),
-        "singular": ("assembly_functions_singular", "kernel_functions_singular"),
-        "sparse": ("assembly_functions_sparse", "kernel_functions_sparse"),
-        "potential": ("assembly_function_potential", "kernel_functions_regular"),
-    }
-    got = {}
-    # the dispatch is executed for each mode (finite-domain abstract execution; not a match on how the tests are spelled)
-    from .. import dispatch
+    # the dispatch is executed for each mode (finite-domain abstract execution; not a match on how the tests are spelled,
+    # nor on what the local dicts are called: a registry is identified by the mode it is returned for)
+    from .. import selectk
 
-    mp = fn.args.args[1].arg
-    for mode in want:
-        kind, node = dispatch.select(fn, {mp: mode})
-        if kind == "return" and isinstance(node, ast.Tuple) and len(node.elts) == 2 and all(isinstance(e, ast.Subscript) for e in node.elts):
-            a, b = node.elts
-            got[mode] = (unparse(a.value), unparse(b.value), unparse(a.slice), unparse(b.slice), fn.lineno)
-    for mode, (ra, rk) in want.items():
-        g = got.get(mode)
-        ok = g is not None and g[0] == ra and g[1] == rk and g[2].endswith(".assembly_type") and g[3].endswith(".kernel_type")
-        r.check(ok, "mode " + mode, NK, fn.name, g[4] if g else fn.lineno, "mode %s returns (%s, %s)" % (mode, g[0] if g else None, g[1] if g else None),
-                "mode %r returns (%s[%s], %s[%s]), expected (%s[assembly_type], %s[kernel_type])" % ((mode,) + (tuple(g[k] for k in (0, 2, 1, 3)) if g else ("?",) * 4) + (ra, rk)))
+    probs = selectk.mode_problems(ctx)
+    roles = K.registry_roles(ctx)
+    for mode in K.ROLE_NAMES:
+        r.check(not probs[mode], "mode " + mode, NK, fn.name, fn.lineno, "mode %s returns (%s, %s)" % (mode, roles[mode][0], roles[mode][1]), "; ".join(probs[mode]))
 
 
 def spec_agreement(ctx):
